@@ -5,6 +5,7 @@ A constraint is (coeffs: dict atom -> Fraction, const: Fraction) meaning  sum(c_
 Atoms are arbitrary hashable objects.  Variables are free (unbounded sign).
 """
 from fractions import Fraction
+from math import gcd
 
 
 def feasible(cons):
@@ -116,6 +117,70 @@ def feasible(cons):
     return -zval == 0
 
 
+def tighten(co, k):
+    """every atom stands for an integer: sum c_i*x_i + k <= 0 with integer c_i of gcd g is  sum (c_i/g)*x_i + ceil(k/g) <= 0
+    (8*i < 8*q gives i + 1 <= q, which no rational argument sees)"""
+    if not co:
+        return (co, k)
+    den = 1
+    for c in co.values():
+        d = Fraction(c).denominator
+        if d != 1:
+            den = den * d // gcd(den, d)
+    g = 0
+    for c in co.values():
+        g = gcd(g, abs(int(Fraction(c) * den)))
+    if g == 0 or (g == den and Fraction(k).denominator == 1):
+        return (co, k)
+    f = Fraction(den, g)
+    k2 = Fraction(k) * f
+    return ({a: Fraction(c) * f for a, c in co.items()}, Fraction(-((-k2.numerator) // k2.denominator)))
+
+
+def int_strengthen(cons, limit=40):
+    """consequences over the integers that the rational relaxation misses: equalities (a constraint present with its negation)
+    whose some atom has coefficient +-1 are solved for that atom and substituted everywhere, then every constraint is divided by
+    the gcd of its coefficients with the constant rounded (8*i + 1 <= L and L = 8*q give i + 1 <= q)"""
+    cons = [tighten(dict(c[0]), Fraction(c[1])) for c in cons]
+    for _ in range(limit):
+        keyed = {(frozenset(co.items()), k) for co, k in cons}
+        pick = None
+        for co, k in cons:
+            if not co or (frozenset((a, -c) for a, c in co.items()), -k) not in keyed:
+                continue
+            for a, c in sorted(co.items(), key=lambda x: repr(x[0])):
+                if abs(c) == 1:
+                    pick = (a, c, co, k)
+                    break
+            if pick:
+                break
+        if pick is None:
+            break
+        a, c, co, k = pick
+        # a = -(sum_{b != a} co_b*b + k)/c
+        expr = {b: -cb / c for b, cb in co.items() if b != a}
+        ek = -k / c
+        out = []
+        for co2, k2 in cons:
+            ca = co2.get(a)
+            if ca is None:
+                out.append((co2, k2))
+                continue
+            n = {b: cb for b, cb in co2.items() if b != a}
+            for b, cb in expr.items():
+                v = n.get(b, 0) + ca * cb
+                if v == 0:
+                    n.pop(b, None)
+                else:
+                    n[b] = v
+            kk = k2 + ca * ek
+            if not n and kk <= 0:
+                continue
+            out.append(tighten(n, kk))
+        cons = out
+    return cons
+
+
 def neg_int(co, k):
     """integer negation of (e <= 0): e >= 1, i.e. -e + 1 <= 0"""
     return ({a: -c for a, c in co.items()}, -k + 1)
@@ -171,7 +236,15 @@ def entails(cons, goal):
         if not c[0] and c[1] > 0:
             return True
     sub = cone(cons, co.keys())
-    return not feasible_cached(sub + [neg_int(co, k)])
+    if not feasible_cached(sub + [neg_int(co, k)]):
+        return True
+    if not INT_STRENGTHEN:
+        return False
+    st = int_strengthen(sub + [neg_int(co, k)])
+    return not feasible_cached(st)
+
+
+INT_STRENGTHEN = True
 
 
 def feasible_after(cons, new):
